@@ -2,7 +2,7 @@ from __future__ import annotations
 
 import io
 import json
-from dataclasses import dataclass
+from dataclasses import dataclass, replace
 from pathlib import Path
 from typing import Any, Callable, Iterator, Literal, Optional, Sequence
 from zipfile import ZipFile
@@ -119,21 +119,26 @@ def _traverse_tree(nodes_iter, show, **kwargs):
     yield node, label, 0, True  # node, label, level, is_first_node
 
     prev_level = node.level  # should be 0
+    # levels (as reported by walk_tree) of the chain of nodes shown so far that
+    # are ancestors of the current node; the root is always shown
+    shown_ancestors = [node.level]
 
     for node in nodes_iter:
         visible = _check_visibility(node.is_self_safe, node.is_safe, show=show)
         if not visible:
             continue
 
-        level_diff = prev_level - node.level
-        if level_diff < -1:
-            # this would mean it is a "(great-)grandchild" node
-            raise ValueError(
-                "While constructing the tree of the object, a level difference of "
-                f"{level_diff} was encountered, which should not be possible, please "
-                "report the issue here: https://github.com/skops-dev/skops/issues"
-            )
+        # When some ancestors of this node are hidden (e.g. show="trusted" and
+        # an untrusted parent), attach it to its nearest shown ancestor, so that
+        # a row is never more than one level deeper than the previous one.
+        while shown_ancestors and shown_ancestors[-1] >= node.level:
+            shown_ancestors.pop()
+        shown_level = len(shown_ancestors)
+        shown_ancestors.append(node.level)
+        if shown_level != node.level:
+            node = replace(node, level=shown_level)
 
+        level_diff = prev_level - node.level
         label = _get_node_label(node, **kwargs)
         yield node, label, level_diff, False
         prev_level = node.level
